@@ -147,10 +147,20 @@ def c13_pruned_block_selection(ctx, v):
     gp = ex.fresh_value("u64", "genesis_period")
     ccfg = ctx.mk_struct(ex, "ConsensusConfig", "consensus", genesis_period=gp)
 
+    prev_idx = ctx.field_index("Block", "previous_block_hash")
+
     def hook(ex_, st, callee, args, dty):
         if re.search(r"::get_consensus_config$", callee):
             from .models import mk_some
             return mk_some(dty, S.Ref(S.Cell(ccfg)))
+        if re.search(r"AHashMap::<\[u8; 32\], Block>::get::", callee):
+            k = args[1]
+            if isinstance(k, S.Ref) and k.path and k.path[-1][0] == "f" and k.path[-1][1] == prev_idx:
+                # scenario: the parent block is not indexed (its burn-fee / difficulty arithmetic is
+                # independent of the rebroadcast section and is skipped)
+                from .models import mk_none
+                st.events.append(("call", callee, args, None))
+                return mk_none(dty)
         return None
     ex.on_call = hook
     bid = ex.fresh_value("u64", "block.id")
